@@ -44,6 +44,16 @@ theorem blacklistCheck_run {t : BlTables} {bc : Check} (h : blacklistCheck t = s
   · cases h
   · cases h; exact ⟨rfl, rfl, rfl⟩
 
+theorem blacklistCheck_usesPos {t : BlTables} {bc : Check} (h : blacklistCheck t = some bc) : bc.usesPos = false := by
+  unfold blacklistCheck at h
+  split at h
+  · cases h
+  · cases h; rfl
+
+theorem forCheck_erased {env : Env} {c : Check} (h : c.usesPos = false) :
+    env.forCheck c = { env with v := env.v.erase } := by
+  simp [Env.forCheck, h]
+
 theorem rulesFor_mem_kinds {t : BlTables} {kind : Str} {r : Rule} (h : r ∈ t.rulesFor kind) :
     kind ∈ t.map (·.1) := by
   unfold BlTables.rulesFor at h
@@ -78,7 +88,7 @@ theorem fillId_named {c : Check} {raw : Raw} (h : raw.id ≠ []) : fillId c raw 
   | cons a as => simp
 
 theorem runCheck_plain {nm : NosecMap} {env : Env} {c : Check} {raw : PRaw} {l col : Nat}
-    (hrun : c.run env = .ok (some raw)) (hid : raw.id ≠ [])
+    (hrun : c.run (env.forCheck c) = .ok (some raw)) (hid : raw.id ≠ [])
     (hn : NoNosecOn nm env.ctx.linerange) (hloc : raw.loc = .ctx)
     (hl : env.ctx.lineno = some l) (hc : env.ctx.col = some col) :
     runCheck nm env c = [.finding ⟨raw.id, raw.sev, raw.conf, l, env.ctx.linerange, col⟩] := by
